@@ -15,6 +15,31 @@ CHECKS = {
               "1..64, up to 4 sketches) are validated step by step against the same specification with ghost truth."),
         note="trusted: TLC, CommunityModules, numpy; key placement observed on probe sketches; exhaustive only for the named small instances",
         technique="TLA+ spec + TLC exhaustive check; edge replay spec->code; trace validation code->spec (BigNum)"),
+    "C03": dict(
+        category="model_checking", design_ref="DESIGN.md 4.3",
+        text=("TLC checks NoOverCell/NoOver/NoGhost on every history of small HeavyHitters instances whose key universe "
+              "contains the empty key, an all-NUL key, a NUL-suffixed pair and a key longer than max_key_len; every explored "
+              "transition is replayed on the real class for placements observed from the real hash (counts scaled to the real "
+              "ceiling), and recorded random histories (widths 1..16, depths 1..4, max_key_len 1..16, up to 4 sketches, merges, "
+              "save/load, values around 2^32) are validated step by step with ghost truth per key identity."),
+        note="trusted: TLC, CommunityModules, numpy; cell ownership observed on probe sketches; exhaustive only for the named small instances",
+        technique="TLA+ spec + TLC exhaustive check; edge replay spec->code; trace validation code->spec"),
+    "C04": dict(
+        category="model_checking", design_ref="DESIGN.md 4.4",
+        text=("TLC checks Dominant (hh[k] >= 2f - W_r and membership in query) and MajorityFirst on every history, partition "
+              "and merge order of the small instances incl. width 1; conformance as for C03 (edge replay + validated traces "
+              "of the real class, invariants evaluated on every recorded state)."),
+        note="saturation excluded as the property states (ghost flag sat); trusted base as C03",
+        technique="TLA+ spec + TLC exhaustive check; edge replay; trace validation"),
+    "C13": dict(
+        category="model_checking", design_ref="DESIGN.md 4.13",
+        text=("The candidate-set cache is part of the specification state; TLC checks CacheCoherent and the action property "
+              "QueryAnswer (counts = hh[key] >= threshold, non-increasing, distinct, prefix of the unbounded answer, completeness) "
+              "on all interleavings of add/merge/query/save-load of the small instance; query edges are replayed on the real "
+              "class from real snapshots (cache included) and recorded histories with cache-hit and cache-miss queries are "
+              "validated (order of equal counts left free)."),
+        note="default threshold floor(phi*n_added) is computed by the harness with float64 arithmetic and logged; trusted base as C03",
+        technique="TLA+ spec + TLC exhaustive check; edge replay; trace validation"),
 }
 
 NOT_APPLICABLE = {
